@@ -126,7 +126,7 @@ package sniffing
 //@     invariant lineStart == 0 || lineStart == len(data) + 1 || (lineStart >= 2 && data[lineStart-2] == httpLineSep[0] && data[lineStart-1] == httpLineSep[1])
 
 //@ func (*Sniffer).SniffHttp
-//@   requires s.buf != nil
+//@   requires s.buf != nil && len(httpLineSep) == 2
 //@   dyncalls noeffect
 //@   modifies *
 //@   at return 1 assert s.buf.Len() == 0 || !unicode.IsPrint(s.buf.Bytes()[0])
